@@ -65,7 +65,7 @@ CHECKS["C10"] = dict(
     text="Same symbolic driver and ownership monitors as C01, with the fault replaced by KeyboardInterrupt / SystemExit / a "
          "BaseException subclass raised from inside a symbolic socket call of the history; after each call no later call may "
          "read another call's bytes and every pool must have zero checked-out connections. All shards exhaust.",
-    note="Bound: 2-call histories, one interruption, 4 stacks x 6 first operations (thorough 6 x 15). " + NETNOTE,
+    note="Bound: 2-call histories (3 with pool_idle_timeout), one interruption in any connect/sendall/recv/close, before or after the call took effect, 4 stacks x 7 first operations (thorough 6 x 16). " + NETNOTE,
     design="3 (C10)", technique=CH)
 
 CHECKS["C07"] = dict(
@@ -91,7 +91,7 @@ CHECKS["C06"] = dict(
          "error kind, symbolic and distinct connect/I-O timeouts: monitors bound the number of open sockets at every event, "
          "require every call that no failure struck to succeed, check the timeout in force at connect and at every "
          "sendall/recv, that TLS I/O goes through the wrapper, and that no socket stays open after close(). All shards exhaust.",
-    note="Bound: 4-call history + close(), two failures, <= 2 (thorough 3) resolved addresses. " + NETNOTE,
+    note="Bound: 4-call history + close(), two failures, <= 2 (thorough 3) resolved addresses, integer timeouts and None. " + NETNOTE,
     design="3 (C06)", technique=CH)
 
 CHECKS["C09"] = dict(
@@ -101,7 +101,7 @@ CHECKS["C09"] = dict(
          "zero checked-out connections, no 'Too many objects'. Plus every pruned 6-action sequence of get/release/destroy/"
          "clock-advance on the real ObjectPool with up to 3 objects out, against the never-hand-out-closed-or-expired "
          "invariant. All shards exhaust.",
-    note="Bound: 3-call histories, one faulty call, pool sequences of 6 (thorough 7) actions. " + NETNOTE,
+    note="Bound: 3-call histories over get/set/get_many/delete_many/incr/touch/quit, one faulty call, pool sequences of 6 (thorough 7) actions. " + NETNOTE,
     design="3 (C09)", technique=CH)
 
 CHECKS["C02"] = dict(
@@ -112,7 +112,7 @@ CHECKS["C02"] = dict(
          "solver-enumerated over a 12-class alphabet and the wire is parsed by an independent strict memcached grammar; "
          "multi-key calls (also 900 KB / 6000-key ones) must send nothing when one member is illegal. Integer arguments: "
          "symbolic 0..99, protocol boundaries, non-integers rejected. All shards exhaust.",
-    note="Bound: keys <= 2 (3) symbolic bytes, prefix <= 1 (2), values <= 3 (4); 12-class alphabet at hashing sites. The strict "
+    note="Bound: keys <= 2 (3) symbolic bytes, prefix <= 1 (2), bytes values <= 3 (4), str values <= 2 (3) code points under 3 encodings; 12-class alphabet at hashing sites. The strict "
          "grammar and its builder are validated at setup. Trusted: z3, CrossHair bytes/int models, vkit/strict.py.",
     design="3 (C02)", technique=CH)
 
@@ -144,7 +144,7 @@ CHECKS["C16"] = dict(
          "parsed command streams, result (value and type) or exception class, and socket timeouts must agree. The "
          "configuration (prefix, default_noreply, encoding, serde, timeouts) is the shard. All shards exhaust.",
     note="Everything is concrete once the indices are chosen, so the solver's role is complete enumeration of the index space "
-         "(20 operation groups x <=4 shapes x 3 noreply x 4 states x 4 presets). " + NETNOTE,
+         "(20 operation groups x <=4 shapes x 3 noreply x 4 states x 4 presets; two-call sequences: 5 first calls x 20 x 3 x 3). " + NETNOTE,
     design="3 (C16)", technique=CH)
 
 CHECKS["C19"] = dict(
@@ -154,7 +154,7 @@ CHECKS["C19"] = dict(
          "10-key corpus must be routed (real set) only to advertised nodes on the advertised address form and port, "
          "replaced clients' connections must be closed; error-line answers must raise the matching memcached error. "
          "All shards exhaust.",
-    note="Bound: 4 nodes (the property mentions up to 6), cut at every position of the reply + receive sizes 4 and 7. " + NETNOTE,
+    note="Bound: 4 nodes (the property mentions up to 6), cut at every position of the reply + receive sizes 4 and 7, config versions from {1, 9, 99999999999}. " + NETNOTE,
     design="3 (C19)", technique=CH)
 
 CHECKS["C11"] = dict(
@@ -186,7 +186,7 @@ CHECKS["C13"] = dict(
          "retry_timeout nor retry_attempts+3 inside dead_timeout, no eviction on a single failure, healthy servers never "
          "bypassed, keys of an evicted server answered by the others, set_many/get agreement, only the injected error or "
          "'all servers down' escapes (nothing with ignore_exc), rotation and ownership restored by steady healthy traffic.",
-    note="Bound: 2 servers (thorough 3), 3-event histories over the full alphabet and 5-event ones over two reduced alphabets, "
+    note="Bound: 2 servers (3 in the pair shards and the thorough tier), 3-event histories (thorough 4) over the full alphabet, 5-6-event ones over reduced / scripted alphabets, plain keys and (server_key, key) pairs, "
          "timeouts <= 3 units. The recovery bound is 2*(dead_timeout + traffic gap) from the last eviction (the code compares "
          "with strict >). Trusted: z3, CrossHair int model, the stub client/hasher table.",
     design="3 (C13)", technique=CH)
